@@ -43,7 +43,7 @@ static void mode_cbr(void){
       int isdtx=(len<=2&&in_dtx);
       if(isdtx) vc_count("dtx_packets_exempt",1);
       else if(user_br==OPUS_BITRATE_MAX){ /* fills the buffer: up to 1276 for a single frame; a multi-frame packet fills max_data_bytes */
-        if(!(len==expect||(m.valid&&m.count>1&&len==maxb))) vc_viol("cbr:max-not-filled","BITRATE_MAX CBR len=%d maxb=%d frames=%d (Fs=%d fs=%d)",len,maxb,m.valid?m.count:-1,Fs,fs); else vc_count("cbr_max_checked",1); }
+        if(!(m.valid&&m.count>1?len==maxb:len==expect)) vc_viol("cbr:max-not-filled","BITRATE_MAX CBR len=%d maxb=%d frames=%d (Fs=%d fs=%d)",len,maxb,m.valid?m.count:-1,Fs,fs); else { vc_count("cbr_max_checked",1); if(m.valid&&m.count>1&&maxb>1276) vc_count("cbr_max_multiframe_beyond_1276_checked",1); } }
       else if(len!=expect) vc_viol("cbr:wrong-size","CBR len=%d expected %d (bitrate=%lld user=%d Fs=%d fs=%d ch=%d maxb=%d toc=%02x sig=%s hist=%s)",len,expect,b,user_br,Fs,fs,ch,maxb,p[0],vs_names[g.kind],hist);
       else vc_count("cbr_exact_checked",1);
       vc_sig3((uint64_t)fidx|((uint64_t)(Fs/4000)<<4)|((uint64_t)ch<<9),(uint64_t)(user_br==OPUS_AUTO?1:user_br==OPUS_BITRATE_MAX?2:3)|((uint64_t)(expect==maxd)<<2)|((uint64_t)(expect==1)<<3)|((uint64_t)isdtx<<4)|((uint64_t)(maxb<3)<<5),(uint64_t)(p[0]>>3)|((uint64_t)(len<8?len:8)<<5));
